@@ -1,1 +1,120 @@
-fn main(){ let _ = eqlog::verif::uninstall; }
+//! buildsim: the real `eqlog::process` under a simulated disk, scheduler and compiler.
+//! Serves C11 (source fault images), C12 (crash consistency of incremental builds) and C13
+//! (determinism of compilation).
+
+mod c11;
+mod c12;
+mod c13;
+mod harness;
+mod sim;
+
+use simcore::cli::{parse_args, Cmd, ShardStats};
+use simcore::Json;
+
+const ENGINE: &str = "buildsim";
+
+fn run_case(case: &Json) -> Result<(Option<(String, String)>, u64), String> {
+    match case.get("kind").and_then(|k| k.as_str()).unwrap_or("") {
+        "c12-history" => {
+            let fams = harness::load_families();
+            let mut cache = harness::CleanCache::new();
+            c12::run_case(&fams, &mut cache, case)
+        }
+        "c11-input" => c11::run_case(case),
+        "c13-pair" => c13::run_case(case),
+        other => Err(format!("unknown case kind {other:?}")),
+    }
+}
+
+fn main() {
+    // panics are data here (caught and classified); keep stderr quiet
+    std::panic::set_hook(Box::new(|info| {
+        if !info.payload().is::<sim::Killed>() {
+            eprintln!("panic: {info}");
+            if std::env::var("VERIF_BACKTRACE").is_ok() {
+                eprintln!("{}", std::backtrace::Backtrace::force_capture());
+            }
+        }
+    }));
+    let argv: Vec<String> = std::env::args().collect();
+    if argv.get(1).map(|s| s.as_str()) == Some("compile") {
+        // buildsim compile IN_DIR OUT_DIR : plain module build, no simulator (debugging aid)
+        let config = eqlog::Config {
+            in_dir: argv[2].clone().into(),
+            out_dir: argv[3].clone().into(),
+            component_build: None,
+        };
+        match eqlog::process(&config) {
+            Ok(()) => println!("ok"),
+            Err(e) => {
+                println!("{e}");
+                std::process::exit(1);
+            }
+        }
+        return;
+    }
+    match parse_args() {
+        Ok(Cmd::Run(args)) => {
+            let mut stats = ShardStats::new();
+            match args.prop.as_str() {
+                "C11" => c11::worker(&args, &mut stats),
+                "C12" => c12::worker(&args, &mut stats),
+                "C13" => c13::worker(&args, &mut stats),
+                p => {
+                    eprintln!("buildsim does not serve {p}");
+                    std::process::exit(2);
+                }
+            }
+            if let Err(e) = stats.write(&args, ENGINE) {
+                eprintln!("cannot write results: {e}");
+                std::process::exit(2);
+            }
+            if !stats.diagnostics.is_empty() {
+                for d in &stats.diagnostics {
+                    eprintln!("diagnostic: {d}");
+                }
+                std::process::exit(2);
+            }
+        }
+        Ok(Cmd::Replay { file, .. }) => {
+            let j = match std::fs::read_to_string(&file).map_err(|e| e.to_string()).and_then(|t| Json::parse(&t)) {
+                Ok(j) => j,
+                Err(e) => {
+                    eprintln!("cannot read {file}: {e}");
+                    std::process::exit(2);
+                }
+            };
+            let case = j.get("case").cloned().unwrap_or(Json::Null);
+            match run_case(&case) {
+                Ok((Some((class, message)), h)) => {
+                    println!(
+                        "{}",
+                        Json::obj(vec![
+                            ("replayed", Json::Bool(true)),
+                            ("class", Json::str(&class)),
+                            ("message", Json::str(&message)),
+                            ("log_hash", Json::str(&format!("{h:016x}"))),
+                        ])
+                        .to_string()
+                    );
+                    std::process::exit(1);
+                }
+                Ok((None, h)) => {
+                    println!(
+                        "{}",
+                        Json::obj(vec![("replayed", Json::Bool(false)), ("log_hash", Json::str(&format!("{h:016x}")))]).to_string()
+                    );
+                    std::process::exit(0);
+                }
+                Err(e) => {
+                    eprintln!("harness error: {e}");
+                    std::process::exit(2);
+                }
+            }
+        }
+        Err(e) => {
+            eprintln!("{e}");
+            std::process::exit(2);
+        }
+    }
+}
